@@ -195,6 +195,38 @@ class OpCtxP(_IntOp):
         return IntData(data.data + addend)
 
 
+class Acc:
+    """a stateful helper object handed to a node as a parameter (through a {class, kwargs} descriptor)"""
+
+    def __init__(self, start: int = 0):
+        self.n = start
+
+    def bump(self) -> int:
+        self.n += 1
+        return self.n
+
+    def __repr__(self) -> str:
+        return "Acc()"
+
+    def __eq__(self, other) -> bool:
+        return isinstance(other, Acc)
+
+    def __hash__(self) -> int:
+        return 11
+
+    def to_json(self):
+        return {"acc": "Acc"}
+
+
+class OpAcc(_IntOp):
+    """x + acc.bump(): with a fresh helper object per run this is x + 1"""
+
+    def _process_logic(self, data, acc):
+        k = acc.bump()
+        LOG.append(("OpAcc", {"bumped_to": k}))
+        return IntData(data.data + k)
+
+
 class OpCtxBad(_IntOp):
     """writes a context key it does not declare"""
 
@@ -414,7 +446,7 @@ def register() -> None:
     """Make the library resolvable by name (sweeps resolve `collection` through the registry)."""
     from semantiva.registry.processor_registry import ProcessorRegistry
 
-    for cls in (IntData, SubIntData, OtherData, IntColl, IntColl2, OpTwoB, OpNest, OpNestB, SrcV, SrcD, PSrc, OpAdd, OpAddDef, OpAff, OpTwo, OpCtxW, OpCtxP, OpCtxBad, OpToOther, OpSub, OpSubDecl, OpNeedSub, OpBoom, OpMkColl, OpSum, PrVal, PrParam, PrReq, Snk, PSnk, CpSum, CpBad):
+    for cls in (IntData, SubIntData, OtherData, IntColl, IntColl2, OpTwoB, OpNest, OpNestB, SrcV, SrcD, PSrc, OpAdd, OpAddDef, OpAff, OpTwo, OpCtxW, OpCtxP, OpAcc, OpCtxBad, OpToOther, OpSub, OpSubDecl, OpNeedSub, OpBoom, OpMkColl, OpSum, PrVal, PrParam, PrReq, Snk, PSnk, CpSum, CpBad):
         ProcessorRegistry.register_processor(cls.__name__, cls)
 
 
